@@ -122,9 +122,43 @@ def _names(rng, a, k):
     return a, k
 
 
+# functions whose answer is a fresh array owned by the caller: asking the same question again after the caller has
+# written into the first answer must give the same answer (no answer may be kept and handed out again by the library)
+TWICE_OK = {"process.interpolate", "process.repeat", "process.normalize", "process.average",
+            "match.integral_matching_reference_stretch", "sau.oversample_linspace", "sau.oversample_piecewise_constant",
+            "sau.extend_linspace", "sau.extend_constant", "sau.find_closest_element_indices_to_values",
+            "sau.find_closest_lower_equal_element_indices_to_values", "sau.find_closest_higher_equal_element_indices_to_values",
+            "sau.find_closest_lower_or_higher_element_indices_to_values"}
+P_TWICE = 0.12
+TWICE = {"asked_twice": 0}
+
+
+def scribble(result, inputs):
+    """write into every array of a first answer that does not share memory with an input (the caller's own data)"""
+    import numpy as np
+    parts = result if isinstance(result, (tuple, list)) else [result]
+    ins = [v for v in inputs if isinstance(v, np.ndarray)]
+    done = 0
+    for r in parts:
+        if isinstance(r, np.ndarray) and r.flags.writeable and r.size and r.dtype.kind in "fiu" \
+                and not any(np.shares_memory(r, v) for v in ins):
+            r += 3
+            r *= -2
+            done += 1
+    return done
+
+
 def call(rng, fn, name, args, kw=None, **opts):
     a, k, form = bind(rng, name, args, kw, **opts)
     if rng is not None:
         a, k = _names(rng, a, k)
     FORMS[form] += 1
+    if rng is not None and name in TWICE_OK and float(rng.random()) < P_TWICE:
+        try:
+            first = fn(*a, **k)
+        except Exception:
+            return fn(*a, **k)
+        if scribble(first, list(a) + list(k.values())):
+            TWICE["asked_twice"] += 1
+        return fn(*a, **k)            # the answer that is judged is the SECOND one
     return fn(*a, **k)
